@@ -101,6 +101,7 @@ type evalCtx struct {
 	fieldVal func(f *types.Var) (constant.Value, bool)
 	env      map[ssa.Value]constant.Value
 	steps    int
+	depth    int
 }
 
 func (e *evalCtx) val(v ssa.Value, pred *ssa.BasicBlock) (constant.Value, error) {
@@ -149,6 +150,31 @@ func (e *evalCtx) val(v ssa.Value, pred *ssa.BasicBlock) (constant.Value, error)
 		return e.val(x.X, pred)
 	case *ssa.ChangeType:
 		return e.val(x.X, pred)
+	case *ssa.Call:
+		// a helper that is itself a side-effect-free fragment over constants (st.balanced()): evaluated with its
+		// parameters bound to the arguments' values; any store or further unknown call inside it is an error
+		cal := x.Call.StaticCallee()
+		if cal == nil || cal.Blocks == nil || e.depth > 3 || len(cal.Params) != len(x.Call.Args) {
+			return nil, fmt.Errorf("side effect in evaluated fragment at %v", x)
+		}
+		sub := &evalCtx{fieldVal: e.fieldVal, env: map[ssa.Value]constant.Value{}, depth: e.depth + 1}
+		for i, a := range x.Call.Args {
+			c, err := e.val(a, pred)
+			if err != nil {
+				// an argument that is not a constant (the receiver pointer) is simply left unbound
+				continue
+			}
+			sub.env[cal.Params[i]] = c
+		}
+		res, err := sub.run(cal.Blocks[0], nil)
+		if err != nil {
+			return nil, err
+		}
+		if len(res) != 1 {
+			return nil, fmt.Errorf("helper %s does not return one value", cal.Name())
+		}
+		e.steps += sub.steps
+		return res[0], nil
 	}
 	return nil, fmt.Errorf("cannot evaluate %T %s", v, v.Name())
 }
@@ -185,7 +211,18 @@ func (e *evalCtx) run(b, pred *ssa.BasicBlock) ([]constant.Value, error) {
 		}
 		last := b.Instrs[len(b.Instrs)-1]
 		for _, in := range b.Instrs {
-			switch in.(type) {
+			switch y := in.(type) {
+			case *ssa.Call:
+				if cal := y.Call.StaticCallee(); cal != nil && cal.Blocks != nil && y.Parent() != nil && cal.Pkg == y.Parent().Pkg && cal.Signature.Results().Len() == 1 {
+					// evaluated here (and thereby checked for effects), whether or not its value is used
+					c, err := e.val(y, pred)
+					if err != nil {
+						return nil, err
+					}
+					e.env[y] = c
+					continue
+				}
+				return nil, fmt.Errorf("side effect in evaluated fragment at %v", in)
 			case *ssa.Store, ssa.CallInstruction, *ssa.MapUpdate:
 				return nil, fmt.Errorf("side effect in evaluated fragment at %v", in)
 			}
